@@ -16,7 +16,8 @@ DM = "src/linter_config/directive_markers.py::"
 @contract(DM + "has_ignore_directive_marker", props=["C04"], types=dict(line=Str), returns=Bool)
 class HasIgnoreDirectiveMarker:
     def value(line):
-        return "# thailint: ignore-file" in line.lower() or "# design-lint: ignore-file" in line.lower()
+        return ("# thailint: ignore-file" in line.lower() or "# design-lint: ignore-file" in line.lower()
+                or "// thailint: ignore-file" in line.lower() or "// design-lint: ignore-file" in line.lower())
 
 
 @contract(DM + "has_line_ignore_marker", props=["C04"], types=dict(code=Str), returns=Bool)
@@ -29,7 +30,8 @@ class HasLineIgnoreMarker:
 @contract(DM + "has_ignore_next_line_marker", props=["C04"], types=dict(line=Str), returns=Bool)
 class HasIgnoreNextLineMarker:
     def value(line):
-        return "# thailint: ignore-next-line" in line or "# design-lint: ignore-next-line" in line
+        return ("# thailint: ignore-next-line" in line or "# design-lint: ignore-next-line" in line
+                or "// thailint: ignore-next-line" in line or "// design-lint: ignore-next-line" in line)
 
 
 def block_marker(line, word):
@@ -77,40 +79,18 @@ def style_ignore(r):
 
 @lemma(props=["C04"], types=dict(r=Str), name="comment-style/ignore-next-line")
 def style_ignore_next_line(r):
-    """Expected to FAIL (known finding C04-next-line-hash-only): only `#` is recognised."""
+    """Both comment styles are recognised (repaired: fix for C04-next-line-hash-only)."""
     return call(DM + "has_ignore_next_line_marker", "# thailint: ignore-next-line" + r) \
         and call(DM + "has_ignore_next_line_marker", "// thailint: ignore-next-line" + r)
 
 
-@lemma(props=["C04"], types=dict(r=Str), name="comment-style/ignore-next-line-adjusted")
-def style_ignore_next_line_adjusted(r):
-    """Finding-adjusted: the `#` spelling is always recognised; the `//` spelling exactly when the rest of the line
-    happens to contain a `#` directive (nothing else may make it match)."""
-    return call(DM + "has_ignore_next_line_marker", "# thailint: ignore-next-line" + r) \
-        and call(DM + "has_ignore_next_line_marker", "// thailint: ignore-next-line" + r) \
-        == ("# thailint: ignore-next-line" in r or "# design-lint: ignore-next-line" in r)
-
-
 @lemma(props=["C04"], types=dict(r=Str), name="comment-style/ignore-file")
 def style_ignore_file(r):
-    """Expected to FAIL (known finding C04-ignore-file-hash-only): only `#` is recognised. Stated for lines that are
-    already lower-case (x.lower() == x), which keeps the uninterpreted `lower` out of the counterexample search."""
-    if not (("# thailint: ignore-file" + r).lower() == "# thailint: ignore-file" + r
-            and ("// thailint: ignore-file" + r).lower() == "// thailint: ignore-file" + r):
-        return True
-    return call(DM + "has_ignore_directive_marker", "# thailint: ignore-file" + r) \
-        and call(DM + "has_ignore_directive_marker", "// thailint: ignore-file" + r)
-
-
-@lemma(props=["C04"], types=dict(r=Str), name="comment-style/ignore-file-adjusted")
-def style_ignore_file_adjusted(r):
-    """Finding-adjusted: `#` always; `//` exactly when the lower-cased line contains a `#` spelling anyway."""
+    """Both comment styles are recognised (repaired: fix for C04-ignore-file-hash-only)."""
     if not (keeps_prefix("# thailint: ignore-file", r) and keeps_prefix("// thailint: ignore-file", r)):
         return True
     return call(DM + "has_ignore_directive_marker", "# thailint: ignore-file" + r) \
-        and call(DM + "has_ignore_directive_marker", "// thailint: ignore-file" + r) \
-        == ("# thailint: ignore-file" in ("// thailint: ignore-file" + r).lower()
-            or "# design-lint: ignore-file" in ("// thailint: ignore-file" + r).lower())
+        and call(DM + "has_ignore_directive_marker", "// thailint: ignore-file" + r)
 
 
 @lemma(props=["C04"], types=dict(r=Str), name="comment-style/ignore-start")
